@@ -381,4 +381,10 @@ PROPS["C17"] = dict(
 )
 
 # properties for which no obligation can be built with this technique (reason required)
-NOT_APPLICABLE = {}
+NOT_APPLICABLE = {
+    "C03": "solver-based checking could not reach it within budget: fastcgi::format_output + an independent de-framer gave no verdict in 900 s at one gather entry (vector<entry> reallocation of pointer-carrying PODs); nonblocking_write / chunked framing / copy_buf need booster::aio buffers, ostringstream formatting and socket objects that are not encodable here (DESIGN.md section 8)",
+    "C04": "the XSS filter (std::map/std::set rule tables, regex functors, string building in nested loops) is the code shape that exhausted 16 GB at input length 2..3 in comparable units (HTTP tokenizer, url_dispatcher); no obligation could be built within reach (DESIGN.md section 8)",
+    "C07": "mem_cache (hash map + three intrusive lists + multimap of deadlines + trigger index) is beyond the heap sizes CBMC handled on IR-derived C here; the simpler buddy allocator already failed (DESIGN.md section 8)",
+    "C08": "buddy allocator harness (typed arena) did not finish symbolic execution in 600 s for two operations (recursive page_alloc over pointer-linked free lists in one arena object); the LRU/limit logic lives in mem_cache, see C07",
+    "C09": "real thread interleavings are not explorable with this technique (CBMC's concurrency support on IR-derived C++ with heap containers does not scale to two operations); a lock-discipline argument as used for C17 would need the mem_cache encoding that C07 lacks",
+}
